@@ -333,6 +333,17 @@ def discharge(prog, body, kind, bi, t, bounds):
         why = _fallback_of_sized_conversion(prog, body)
         if why is not None:
             return why
+    if kind.startswith('call:') and any(kind.endswith(x) or x in kind for x in PANIC_FNS):
+        # `_ => unreachable!()` of a match on an index whose range is known and whose every value has an arm of its own
+        for g, k, sw in body.guard_terms(bi):
+            if k != 'otherwise':
+                continue
+            r = bounds.rng(g)
+            if r is None:
+                continue
+            named = {v for v, tg in body.switch_edges(sw) if isinstance(v, int)}
+            if r[0] >= 0 and r[1] - r[0] < 64 and all(v in named for v in range(r[0], r[1] + 1)):
+                return 'fallback arm of a match on a value in [%d,%d], every one of which has its own arm' % r
     if kind.startswith('assert:BoundsCheck'):
         c = strip(body.op_term(t['cond'], (bi, None)))
         if isinstance(c, tuple) and c[0] == 'bin' and c[1] == 'Lt':
